@@ -918,6 +918,88 @@ def rule_V7(ctx, rule: str = "V7") -> None:
                         "created on a read counts as set", "m = M(); m.inner; m.is_set('inner')")
 
 
+def rule_D7(ctx, rule: str = "D7") -> None:
+    """is_set agrees with the writer about what is present: in every state in which dump writes a field because it is
+    *set* (not because of its value), is_set answers True"""
+    mod = ctx.repo.mod(M_INIT)
+    isf = mod.func("Message.is_set")
+    ctx.analysed("Message.is_set")
+    first = Interp(mod, fork_ifexp=True).run(isf)
+    atoms = {}
+    for p in first:
+        for k in p.valuation:
+            atoms[k] = show(k)
+    # state -> decisions for the atoms is_set consults (by what the atom asks)
+    scenarios = {
+        "plain sub-message present but empty": {"placeholder": False, "optional": False, "group": False, "kind": "Message", "flag": True, "truthy": False, "wraps": False, "none": False},
+        "optional scalar set to its default": {"placeholder": False, "optional": True, "group": False, "kind": "", "flag": False, "truthy": False, "wraps": False, "none": False},
+        "oneof member selected at its default": {"placeholder": False, "optional": False, "group": True, "kind": "", "flag": False, "truthy": False, "wraps": False, "none": False, "selected": True},
+        "wrapper set to the wrapped default": {"placeholder": False, "optional": False, "group": False, "kind": "", "flag": False, "truthy": False, "wraps": True, "none": False},
+    }
+    def decide(k: Sym, sc) -> Optional[bool]:
+        txt = show(k)
+        if "is PLACEHOLDER" in txt:
+            return sc["placeholder"]
+        if txt.endswith(".optional"):
+            return sc["optional"]
+        if ".group is None" in txt:
+            return not sc["group"]
+        if txt.endswith(".group"):
+            return sc["group"]
+        if "_group_current" in txt and "==" in txt:
+            return sc.get("selected", False)
+        if txt.startswith("isinstance("):
+            return bool(sc["kind"]) and sc["kind"] in txt.split(",", 1)[1]
+        if "_serialized_on_wire" in txt:
+            return sc["flag"]
+        if txt.endswith(".wraps"):
+            return sc["wraps"]
+        if txt.endswith(" is None)") or txt.endswith(" is None"):
+            return sc["none"]
+        if txt.startswith("bool(") or k[0] == "n" or (k[0] == "call" and dotted(k[1]) == "self.__raw_get"):
+            return sc["truthy"]
+        return None
+
+    def ev(t: Sym, sc) -> Optional[bool]:
+        if t[0] == "c":
+            return bool(t[1])
+        if t[0] == "op" and t[1] == "not":
+            r = ev(t[2], sc)
+            return None if r is None else not r
+        if t[0] == "op" and t[1] == "truth":
+            return ev(t[2], sc)
+        if t[0] == "op" and t[1] in ("and", "or"):
+            rs = [ev(x, sc) for x in t[2:]]
+            if t[1] == "and":
+                return False if False in rs else (None if None in rs else True)
+            return True if True in rs else (None if None in rs else False)
+        return decide(t, sc)
+
+    for sname, sc in scenarios.items():
+        assume = {}
+        for k in atoms:
+            d = decide(k, sc)
+            if d is not None:
+                assume[k] = d
+        res = Interp(mod, fork_ifexp=True, assume=assume).run(isf)
+        ctx.count(len(res))
+        verdicts = set()
+        for p in res:
+            if p.outcome != "return" or p.value is None:
+                continue
+            r = ev(p.value, sc)
+            verdicts.add("T" if r is True else "F" if r is False else "other:" + show(p.value))
+        name = f"is_set:{sname}"
+        if verdicts == {"T"}:
+            ctx.proved(rule, name, mod.loc(isf))
+        elif "F" in verdicts:
+            ctx.refuted(rule, name, ",".join(sorted(verdicts)), mod.loc(isf),
+                        f"in the state '{sname}' the writer emits the field (it is set) but is_set answers False: presence reported by the API differs from presence on the wire "
+                        "and from the reference's HasField", "M().parse(b'\\x12\\x00').is_set('sub')")
+        else:
+            ctx.inconclusive(rule, name, f"is_set not decided: {sorted(verdicts)}", mod.loc(isf))
+
+
 def _content_only(v: Sym) -> bool:
     """the term is a disjunction/conjunction of truthiness / presence-flag tests of the raw value"""
     if v[0] == "op" and v[1] in ("or", "and"):
